@@ -10,10 +10,10 @@ ID = 'C02'
 LEVEL = 'exploration'
 TIERS = {'quick': 5000, 'thorough': 250000}
 RULE = ('seeded sessions over all operations pushed to the extremes the API can produce (local-id counter preset near 2^32, device remote ids up '
-        'to 2^32-1, maxdata up to 1 MiB with 0xFF-filled pushes, bytes and bytearray payloads, DONE mtimes up to 2^32-1, long paths); every host '
+        'to 2^32-1, maxdata up to 1 MiB with 0xFF-filled pushes, bytes and bytearray payloads, DONE mtimes up to 2^32-1, long paths; a fifth of the sessions authenticate with 1-4 keys against a device that rejects the first ones); every host '
         'byte is parsed by an independent decoder; non-trivial = the run carried >= 1 payload packet and >= 4 packets; distinct = event-log digests')
 ASSUMPTIONS = ['the pack/unpack clause is exercised only at the values simulated sessions produce (incl. 32-bit extremes); no separate input fuzzer is claimed']
-EXPECT_PROBES = {'all': ['c02_arg_ge_2_31', 'c02_payload_sum_ge_2_24', 'c02_payload_ge_64k']}
+EXPECT_PROBES = {'all': ['c02_arg_ge_2_31', 'c02_payload_sum_ge_2_24', 'c02_payload_ge_64k', 'c02_auth_messages']}
 KINDS = ['shell', 'exec_out', 'streaming_shell', 'root', 'list', 'stat', 'pull', 'push', 'push', 'push']
 OWN = ('wire-format', 'wire-partial-message', 'unpack-mismatch', 'hang', 'no-termination')
 
@@ -34,6 +34,15 @@ def generate(seed, tier):
         scn['actors'][0].append({'op': 'push', 'src': g.pick(['bytesio', 'file']), 'content': {'seed': 1, 'size': size, 'alpha': 'ff'},
                                  'path': '/data/' + 'p' * g.pick([1, 200, 1000]), 'mtime': g.pick([0xFFFFFFFF, 0x80000000, 0]), 'mode': 0o100644})
         scn['config']['frag'] = 'whole'
+    if g.chance(0.2):
+        # AUTH messages: several keys, the device accepts a later one (or only the public key), fresh token per challenge
+        nk = g.int(1, 4)
+        idxs = [0, 1, 2, 3]
+        g.r.shuffle(idxs)
+        keys = [[idxs[i], g.pick(['pythonrsa', 'cryptography', 'pycryptodome'])] for i in range(nk)]
+        d['auth'] = [{'accept_key': g.pick([keys[-1][0], keys[-1][0], None]), 'pubkey': 'accept', 'think_s': 0.0}]
+        scn['actors'][0][0]['keys'] = keys
+        scn['actors'][0][0]['at'] = 5.0
     return {'seed': seed, 'scn': scn}
 
 
@@ -60,6 +69,8 @@ def evaluate(case, tapes=None):
             pr['c02_arg_ge_2_31'] = pr.get('c02_arg_ge_2_31', 0) + 1
         if ck >= 1 << 24:
             pr['c02_payload_sum_ge_2_24'] = pr.get('c02_payload_sum_ge_2_24', 0) + 1
+        if name == 'AUTH':
+            pr['c02_auth_messages'] = pr.get('c02_auth_messages', 0) + 1
         if ln >= 65536:
             pr['c02_payload_ge_64k'] = pr.get('c02_payload_ge_64k', 0) + 1
     out['violations'] = [p for p in probs if p[0] in OWN]
